@@ -22,7 +22,8 @@ RefKind(n, m, same) ==
 KindLen(kind, n, m) == CASE kind = "short" -> 2 * n + 2
                          [] kind = "long"  -> 2 + BitLen(m) + n
                          [] kind = "same"  -> 3 + BitLen(m)
-Admissible(kind, n, same) == kind \in {"short", "long"} \/ (kind = "same" /\ n > 0 /\ same)
+\* (hml_same with n = 0 is a valid, never shortest, way to write the empty label: '11' v and a length field of 0)
+Admissible(kind, n, same) == kind \in {"short", "long"} \/ (kind = "same" /\ (n = 0 \/ same))
 Rank(kind) == CASE kind = "short" -> 0 [] kind = "long" -> 1 [] kind = "same" -> 2
 MinKind(n, m, same) ==
     CHOOSE kd \in {"short", "long", "same"} :
@@ -34,7 +35,7 @@ LabelEnc(kind, s, m) ==
     LET n == Len(s)  k == BitLen(m) IN
     CASE kind = "short" -> <<0>> \o Rep(n, 1) \o <<0>> \o s
       [] kind = "long"  -> <<1, 0>> \o NatBits(n, k) \o s
-      [] kind = "same"  -> <<1, 1, s[1]>> \o NatBits(n, k)
+      [] kind = "same"  -> <<1, 1, IF n = 0 THEN 1 ELSE s[1]>> \o NatBits(n, k)
 
 \* longest common prefix of a non-empty set of equal-length bit sequences
 Lcp(S) == LET a == CHOOSE x \in S : TRUE
